@@ -382,6 +382,57 @@ def ctrl_names_unfixed(B, cfg, ctrl, ref_names):
     return pm.get_parameter_names()
 
 
+def case_repopulate(B, cfg):
+    """one controller, two population models in a row (covariates in another
+    order): the second posterior is the one assembled by hand for the second
+    model, whatever was built before"""
+    cfg = dict(cfg, model='sym', n_out=1, ems=['Gaussian'], n_cov=2)
+    T_ = truth(B, cfg)
+    for tr in T_:
+        for v in tr['covs']:
+            B.assume(v > 0)      # keeps the covariate-shifted scales positive
+    variant = cfg.get('variant', {})
+    df, appearance = frame(B, cfg, T_, variant)
+    ctrl = chi.ProblemModellingController(user_model(B, cfg),
+                                          error_models(cfg))
+
+    def pop(order):
+        # parameter 0 shifted by one covariate, parameter 1 by the other
+        a = chi.CovariatePopulationModel(
+            chi.GaussianModel(), chi.LinearCovariateModel(n_cov=1))
+        b = chi.CovariatePopulationModel(
+            chi.LogNormalModel(), chi.LinearCovariateModel(n_cov=1))
+        a.set_covariate_names([COV_NAMES[order[0]]])
+        b.set_covariate_names([COV_NAMES[order[1]]])
+        return chi.ComposedPopulationModel([a, b])
+    orders = cfg['orders']
+    kw = {'output_observable_dict': {
+        user_model(B, cfg).outputs()[0]: OBS_NAMES[0]}}
+    ctrl.set_population_model(pop(orders[0]))
+    ctrl.set_data(df, **kw)
+    labels = [str(x) for x in cfg['ids']]
+    for step, order in enumerate(orders):
+        if step:
+            ctrl.set_population_model(pop(order))
+        n = ctrl.get_n_parameters()
+        prior = SymPrior(B, n, tag='P%d' % step)
+        ctrl.set_log_prior(prior)
+        post = ctrl.get_log_posterior()
+        lls = by_hand(B, cfg, T_, appearance, variant)
+        ref_pop = pop(order)
+        ref_pop.set_dim_names(lls[0].get_parameter_names())
+        ref_pop.set_n_ids(len(lls))
+        covs = [[T_[labels.index(lab)]['covs'][c] for c in order]
+                for lab in appearance]
+        want = chi.HierarchicalLogPosterior(chi.HierarchicalLogLikelihood(
+            lls, ref_pop, covariates=ps.arr(B, covs)), prior)
+        x = [B.var('x%d' % k) for k in range(want.n_parameters())]
+        for v in x:
+            B.assume(v > 0)
+        _same(B, 'population model %d (covariates %r)' % (
+            step + 1, [COV_NAMES[c] for c in order]), post, want, x)
+
+
 # -------------------------------------------------------------------- jobs
 VARIANTS = [
     {},
@@ -455,6 +506,10 @@ def jobs(tier):
             model='sym', n_out=1, ems=['Gaussian'], n_ids=2, ids=['b', 'a'],
             units=comps[0], fix=fix, variant={'order': 'interleaved'}),
             FACADE))
+    for orders in ([[0, 1], [1, 0]], [[1, 0], [0, 1], [1, 0]]):
+        for v in ({}, {'order': 'interleaved', 'cov_rows': 'end'}):
+            out.append(('repopulate', 'case_repopulate', dict(
+                n_ids=3, ids=ids3, orders=orders, variant=v), FACADE))
     # dosed + hierarchical + covariates
     out.append(('posterior', 'case_posterior', dict(
         model='pk', n_out=1, ems=['Gaussian'], n_ids=2, ids=['7', '3'],
@@ -477,7 +532,9 @@ BOUNDS = dict(
           '(with duration, bolus, without time, none) incl. no duration '
           'column; 7 population models (pooled, heterogeneous, non-centred, '
           'multi-dimensional, 1-2 covariates) set before or after the data; '
-          'fixed parameters at 3 positions; symbolic values, doses, '
+          'fixed parameters at 3 positions; two to three population models '
+          'in a row on one controller (covariates in another order); '
+          'symbolic values, doses, '
           'durations, covariates and parameters',
     thorough='every rendering for every population model',
     outside='measurement and dose *times* are concrete (distinct values); '
